@@ -22,7 +22,7 @@ static void n_case(uint64_t idx, void *ctx)
     if (pid == 0) {
         res_t r; memset(&r, 0, sizeof r);
         close(rp[0]); close(ep[0]); dup2(ep[1], 2);
-        mc_allow_exit(1);
+        mc_child_reset();
         libast_debug_level = (unsigned) level;
         c->fn(&r);
         if (write(rp[1], &r, sizeof r) != sizeof r) _exit(9);
@@ -30,9 +30,9 @@ static void n_case(uint64_t idx, void *ctx)
     }
     close(rp[1]); close(ep[1]);
     res_t r; memset(&r, 0, sizeof r);
-    char err[4096]; size_t en = 0; ssize_t k;
+    char err[4096], sink[8192]; size_t en = 0; ssize_t k; long total = 0;
+    while ((k = read(ep[0], en < sizeof err - 1 ? err + en : sink, en < sizeof err - 1 ? sizeof err - 1 - en : sizeof sink)) > 0) { total += k; if (en < sizeof err - 1) en += (size_t) k; if (total > (32L << 20)) { kill(pid, SIGKILL); break; } }
     ssize_t got = read(rp[0], &r, sizeof r);
-    while (en < sizeof err - 1 && (k = read(ep[0], err + en, sizeof err - 1 - en)) > 0) en += (size_t) k;
     err[en] = 0;
     close(rp[0]); close(ep[0]);
     int st = 0; waitpid(pid, &st, 0);
